@@ -32,6 +32,7 @@ fn alphabet_for(prop: &str) -> Vec<Op> {
         Op::Batch(1),
         Op::Del(1),
         Op::Flush,
+        Op::FlushStalled,
         Op::Compact,
         Op::CompactAll,
         Op::Reopen,
@@ -65,6 +66,7 @@ fn alphabet_for(prop: &str) -> Vec<Op> {
             Op::Walk(1, Move::Next),
             Op::Walk(0, Move::Seek(b"ab".to_vec())),
             Op::Flush,
+            Op::FlushStalled,
             Op::Compact,
             Op::CompactAll,
             Op::Verify,
@@ -75,6 +77,7 @@ fn alphabet_for(prop: &str) -> Vec<Op> {
             Op::Put(2),
             Op::Batch(0),
             Op::Flush,
+            Op::FlushStalled,
             Op::Compact,
             Op::CompactAll,
             Op::Reopen,
@@ -86,6 +89,7 @@ fn alphabet_for(prop: &str) -> Vec<Op> {
             Op::Del(0),
             Op::PutBig(1),
             Op::Flush,
+            Op::FlushStalled,
             Op::Compact,
             Op::Reopen,
         ],
@@ -127,6 +131,37 @@ fn seeds(prop: &str) -> Vec<(&'static str, Vec<Op>)> {
             "l0-two-overlapping",
             vec![Op::Put(0), Op::Flush, Op::Put(0), Op::Flush],
         ));
+        // two level-0 files that cannot sink one by one (their timestamps interleave): only a
+        // merge relieves a stall here
+        v.push((
+            "time-interleaved-overlapping-files-reopened",
+            vec![
+                Op::Batch(0),
+                Op::Flush,
+                Op::Compact,
+                Op::PutHuge(1),
+                Op::Flush,
+                Op::Compact,
+                Op::PutHuge(1),
+                Op::Flush,
+                Op::Compact,
+                Op::Put(0),
+                Op::Flush,
+                Op::CompactAll,
+                Op::Reopen,
+            ],
+        ));
+        // sixteen overlapping 5 KiB files: each sinks until it rests on the previous one, so every
+        // level below 0 is occupied (unless a row's limits let them merge on the way) and level 0
+        // can only be relieved by a merge
+        let mut stack = vec![];
+        for _ in 0..16 {
+            stack.push(Op::PutHuge(1));
+            stack.push(Op::Flush);
+            stack.push(Op::CompactAll);
+        }
+        stack.extend([Op::Put(0), Op::Flush, Op::Put(0), Op::Flush]);
+        v.push(("full-stack-of-overlapping-files", stack));
         return v;
     }
     // a file sunk to the oldest level by trivial moves
@@ -665,6 +700,7 @@ fn minimise(
 fn main() {
     let args = Args::parse();
     vcore::quiet_panics();
+    lsmtk::verif::set_sched_hook(Some(seqmc::store::stall_hook));
     if let Some(rf) = args.replay_case() {
         replay(&rf);
         return;
